@@ -5,6 +5,13 @@ package remote
 // reqresp, unreach (peer down, then up on the same address), state (Start/Stop sequences).
 
 import (
+	"math/big"
+	"crypto/x509/pkix"
+	"crypto/x509"
+	"crypto/tls"
+	"crypto/rand"
+	"crypto/elliptic"
+	"crypto/ecdsa"
 	"fmt"
 	"net"
 	"sort"
@@ -31,6 +38,38 @@ func vFreeAddr() string {
 	a := l.Addr().String()
 	l.Close()
 	return a
+}
+
+// vTLSConfig: one self-signed certificate for 127.0.0.1, used for listening and (unverified) for dialing
+var vTLSOnce sync.Once
+var vTLSConf *tls.Config
+
+func vTLSConfig() *tls.Config {
+	vTLSOnce.Do(func() {
+		key, err := ecdsa.GenerateKey(elliptic.P256(), rand.Reader)
+		if err != nil {
+			return
+		}
+		tmpl := &x509.Certificate{SerialNumber: big.NewInt(1), Subject: pkix.Name{CommonName: "verif"},
+			NotBefore: time.Now().Add(-time.Hour), NotAfter: time.Now().Add(24 * time.Hour),
+			KeyUsage: x509.KeyUsageDigitalSignature | x509.KeyUsageCertSign, ExtKeyUsage: []x509.ExtKeyUsage{x509.ExtKeyUsageServerAuth},
+			IPAddresses: []net.IP{net.ParseIP("127.0.0.1")}, BasicConstraintsValid: true, IsCA: true}
+		der, err := x509.CreateCertificate(rand.Reader, tmpl, tmpl, &key.PublicKey, key)
+		if err != nil {
+			return
+		}
+		vTLSConf = &tls.Config{Certificates: []tls.Certificate{{Certificate: [][]byte{der}, PrivateKey: key}}, InsecureSkipVerify: true}
+	})
+	return vTLSConf
+}
+
+func vRemoteEngineTLS(addr string, useTLS bool) (*actor.Engine, *Remote, error) {
+	if !useTLS {
+		return vRemoteEngine(addr)
+	}
+	r := New(addr, NewConfig().WithTLS(vTLSConfig()))
+	e, err := actor.NewEngine(actor.NewEngineConfig().WithRemote(r))
+	return e, r, err
 }
 
 func vRemoteEngine(addr string) (*actor.Engine, *Remote, error) {
@@ -272,8 +311,11 @@ func (r *vEvRec) Send(_ *actor.PID, msg any, _ *actor.PID) {
 }
 
 // unreach: n messages to an address nobody listens on; then the peer comes up on that address
-func runRemoteUnreach(t testing.TB, n int) string {
-	a, ra, err := vRemoteEngine(vFreeAddr())
+func runRemoteUnreach(t testing.TB, n int, useTLS bool) string {
+	if useTLS && vTLSConfig() == nil {
+		return "tls-setup-error"
+	}
+	a, ra, err := vRemoteEngineTLS(vFreeAddr(), useTLS)
 	if err != nil {
 		return "setup-error"
 	}
@@ -295,7 +337,7 @@ func runRemoteUnreach(t testing.TB, n int) string {
 	evs.mu.Unlock()
 	sort.Strings(tags)
 	// peer up on the same address
-	b, rb, err := vRemoteEngine(bAddr)
+	b, rb, err := vRemoteEngineTLS(bAddr, useTLS)
 	if err != nil {
 		return fmt.Sprintf("unreachable=%d dead=%d peer-setup-error", unreach, dead)
 	}
@@ -467,6 +509,10 @@ func runRemoteState(t testing.TB, ops []string) string {
 	r := New(addr, NewConfig())
 	var e *actor.Engine
 	var probeCh chan struct{}
+	var peerCh chan struct{}
+	var peerAddr string
+	peerStop := func() {}
+	defer func() { peerStop() }()
 	var out []string
 	for _, op := range ops {
 		res := func() (s string) {
@@ -506,6 +552,33 @@ func runRemoteState(t testing.TB, ops []string) string {
 					return "already"
 				}
 				return "started"
+			case "out": // a send FROM this node to an actor on a peer: works while the remote runs and also after it was stopped
+				if e == nil {
+					return "skip"
+				}
+				if peerCh == nil {
+					peerCh = make(chan struct{}, 64)
+					ch := peerCh
+					pa := vFreeAddr()
+					pe, pr, err := vRemoteEngine(pa)
+					if err != nil {
+						return "setup-error"
+					}
+					peerStop = func() { pr.Stop().Wait() }
+					peerAddr = pa
+					pe.SpawnFunc(func(c *actor.Context) {
+						if _, ok := c.Message().(*TestMessage); ok {
+							ch <- struct{}{}
+						}
+					}, "sink", actor.WithID("s"))
+				}
+				e.Send(actor.NewPID(peerAddr, "sink/s"), &TestMessage{Data: []byte("o")})
+				select {
+				case <-peerCh:
+					return "sent-arrived"
+				case <-time.After(1500 * time.Millisecond):
+					return "sent-lost"
+				}
 			case "probe": // does a message from another node still reach an actor of the FIRST engine?
 				if e == nil {
 					return "skip"
@@ -565,7 +638,7 @@ func TestVerifRemote(t *testing.T) {
 		case "reqresp":
 			w.Case(id, in, runRemoteReqResp(t, vgen.KVInt(in, "n", 1)))
 		case "unreach":
-			w.Case(id, in, runRemoteUnreach(t, vgen.KVInt(in, "msgs", 1)))
+			w.Case(id, in, runRemoteUnreach(t, vgen.KVInt(in, "msgs", 1), vgen.KVInt(in, "tls", 0) == 1))
 		case "abort":
 			w.Case(id, in, runRemoteAbort(t))
 		case "reconnect":
@@ -602,6 +675,7 @@ func TestVerifRemote(t *testing.T) {
 		run(fmt.Sprintf("u%d", i), fmt.Sprintf("kind=unreach msgs=%d", 1+r.Intn(12)), 0)
 	}
 	run("ab0", "kind=abort", 0)
+	run("ut0", fmt.Sprintf("kind=unreach msgs=%d tls=1", 1+r.Intn(6)), 0)
 	for i := 0; i < vgen.Scale(2, 12); i++ {
 		seed := r.Next() % 100000
 		run(fmt.Sprintf("mp%d", i), fmt.Sprintf("kind=multi msgs=%d seed=%d", 6+r.Intn(30), seed), seed)
@@ -609,11 +683,11 @@ func TestVerifRemote(t *testing.T) {
 	run("rc0", fmt.Sprintf("kind=reconnect host=name msgs=%d", 1+r.Intn(5)), 0)
 	run("rc1", fmt.Sprintf("kind=reconnect host=ip msgs=%d", 1+r.Intn(5)), 0)
 	stateSeqs := []string{"start,dial,start,dial,stop,dial,stop,dial", "stop,start,dial,stop,stop,start,dial", "dial,start,stop,dial",
-		"start,probe,start2,probe,dial", "start,start2,start2,probe,stop,probe"}
+		"start,probe,start2,probe,dial", "start,start2,start2,probe,stop,probe", "start,out,stop,out,out,start,out"}
 	for i := 0; i < vgen.Scale(4, 20); i++ {
 		var ops []string
 		for j := 0; j < 3+r.Intn(6); j++ {
-			ops = append(ops, vgen.Pick(r, []string{"start", "stop", "dial", "dial", "start2", "probe"}))
+			ops = append(ops, vgen.Pick(r, []string{"start", "stop", "dial", "dial", "start2", "probe", "out"}))
 		}
 		stateSeqs = append(stateSeqs, strings.Join(ops, ","))
 	}
